@@ -244,4 +244,60 @@ theorem c03_response_trailers_enc (m : Msg) (rest : Bytes) (hw : WfResp m rest) 
   simp only [parseResponse, htl, hsplit, hver, decNat_dec, hph, hfrm, parseBody, trailersOf, body, hb.1, hb.2, Option.map_some]
   simp [parsedOf, hresp, hmeth, htarg, hch, allHs]
 
+/-! ### a whole client half in which some requests travel with trailer fields -/
+
+/-- a request as sent: plainly (the reference encoder), or chunked with trailer fields -/
+structure SentReq where
+  m : Msg
+  tr : Option (List (Bytes × Bytes))
+
+def SentReq.enc (s : SentReq) : Bytes :=
+  match s.tr with
+  | none => encMsgCore s.m
+  | some tr => encReqT s.m tr
+
+/-- what the dissector must report for it: the trailer fields among the header fields -/
+def SentReq.parsed (s : SentReq) : Message :=
+  match s.tr with
+  | none => parsedOf s.m
+  | some tr => { (parsedOf s.m) with headers := (parsedOf s.m).headers ++ tr }
+
+def SentReq.Wf (s : SentReq) : Prop :=
+  WfReq s.m ∧ match s.tr with
+    | none => True
+    | some tr => s.m.framing = .chunked ∧ ∀ h ∈ tr, wfHeader h
+
+theorem SentReq.enc_read (s : SentReq) (hw : s.Wf) (rest : Bytes) :
+    parseRequest (s.enc ++ rest) = some (s.parsed, rest) := by
+  obtain ⟨m, tr⟩ := s
+  cases tr with
+  | none => exact c03_request_enc m hw.1 rest
+  | some tr => exact c03_request_trailers_enc m hw.1 hw.2.1 tr hw.2.2 rest
+
+theorem SentReq.enc_ne_nil (s : SentReq) : s.enc.isEmpty = false := by
+  obtain ⟨m, tr⟩ := s
+  cases tr with
+  | none => exact encMsg_ne_nil m
+  | some tr => simp [SentReq.enc, encReqT]
+
+/-- **A whole client half with trailer fields**: every pipelined sequence of well-formed requests, any of them
+    travelling chunked with trailer fields, is read back as exactly those requests in order, each with its own
+    trailer fields among its header fields - none dropped, none attributed to a neighbour. -/
+theorem c03_client_half_trailers : ∀ (ss : List SentReq), (∀ s ∈ ss, s.Wf) → ∀ fuel, ss.length < fuel →
+    parseAll true fuel ((ss.map SentReq.enc).flatten) = ss.map SentReq.parsed
+  | [], _, fuel, hf => by
+    cases fuel with
+    | zero => omega
+    | succ f => simp [parseAll]
+  | s :: ss, hw, fuel, hf => by
+    cases fuel with
+    | zero => omega
+    | succ f =>
+      have h1 := SentReq.enc_read s (hw s (by simp)) ((ss.map SentReq.enc).flatten)
+      have ih := c03_client_half_trailers ss (fun x hx => hw x (by simp [hx])) f (by simp only [List.length_cons] at hf; omega)
+      have hne : (s.enc ++ (ss.map SentReq.enc).flatten).isEmpty = false := by
+        have := SentReq.enc_ne_nil s
+        cases h : s.enc <;> simp_all
+      simp only [List.map_cons, List.flatten_cons, parseAll, hne, Bool.false_eq_true, if_false, if_true, h1, ih]
+
 end KsVerif.Proofs.C03Trailer
